@@ -26,7 +26,7 @@ FIVE = ["String", "Preamble", "Entry", "ImplicitComment", "ExplicitComment"]
 DEFAULT_ORDER = ["String", "Preamble", "Entry", "ImplicitComment", "ExplicitComment"]  # documented default
 
 U_SIZE = 16
-U_SMALL = [1, 4, 6, 9, 11, 12, 14]
+U_SMALL = [1, 2, 4, 6, 9, 11, 13, 14]
 
 
 def make_block(u, line):
@@ -35,7 +35,12 @@ def make_block(u, line):
     if u <= 4:
         key = ["", "a", "b", "B", "a"][u]
         typ = "article" if u < 4 else "book"
-        return Entry(typ, key, [Field("t", "{%d}" % u, line)], line, f"@{typ}{{{key},...}}")
+        fields = [Field("t", "{%d}" % u, line)]
+        if u in (1, 2, 3):
+            # entries that refer to one another (crossref = the key of another entry of the universe): block order is by
+            # type and key only
+            fields.append(Field("crossref", {1: "b", 2: "B", 3: "a"}[u], line))
+        return Entry(typ, key, fields, line, f"@{typ}{{{key},...}}")
     if u <= 8:
         key = ["", "a", "b", "B"][u - 5]
         return String(key, '"s%d"' % u, line, f"@string{{{key} = ...}}")
@@ -43,8 +48,10 @@ def make_block(u, line):
         return Preamble("p%d" % u, line, "@preamble{p%d}" % u)
     if u == 11:
         return ExplicitComment("ec", line, "@comment{ec}")
-    if u <= 13:
+    if u == 12:
         return ImplicitComment("ic%d" % u, line, "ic%d" % u)
+    if u == 13:
+        return ImplicitComment("% Encoding: UTF-8", line, "% Encoding: UTF-8")  # the header line some reference managers write
     if u == 14:
         return ParsingFailedBlock(error=Exception("bad"), start_line=line, raw="@bad{")
     return DuplicateFieldKeyBlock({"x"}, Entry("misc", "a", [Field("x", "1", line), Field("x", "2", line)], line, "@misc{a,x=1,x=2}"))
@@ -59,8 +66,10 @@ def o_sort(inp):
     # the start line doubles as the unique tag of a block; it is not monotone in the input order (a library filled by
     # two parses, or by hand): "original relative order" is the order in the library, not the order of line numbers
     n_in = len(inp["blocks"])
-    mode = sum(inp["blocks"]) % 3
-    if mode == 1:
+    mode = sum(inp["blocks"]) % 4
+    if mode == 3:
+        lines = [5 * i + 2 for i in range(n_in)]  # several blank lines between consecutive blocks
+    elif mode == 1:
         lines = [n_in - 1 - i for i in range(n_in)]
     elif mode == 2:
         m = next(q for q in itertools.count(max(n_in, 2)) if q > 7 and all(q % d for d in range(2, int(q ** 0.5) + 1)))
